@@ -168,7 +168,18 @@ def _make_local_plain() -> type:
     return LocalPlain
 
 
+def _make_local_shadow() -> type:
+    # a function-local class whose bare name is also the name of a module-level class of the same module
+    # (`class AppError` above): stored under its full `f.<locals>.AppError` path it is not importable, so the loaded
+    # error is a stand-in of that name - never an instance of the unrelated module-level class
+    class AppError(KeyError):  # noqa: F811
+        pass
+
+    return AppError
+
+
 LocalCls = _make_local()
+LocalShadowCls = _make_local_shadow()
 LocalPlainCls = _make_local_plain()
 DynCls = type("DynErr", (Exception,), {"__module__": "no.such.module"})
 DynBase = type("DynBaseErr", (BaseException,), {"__module__": "mon.excser"})  # name not bound in module
@@ -216,6 +227,7 @@ POOL: Dict[str, Any] = {
 }
 FALSY_POOL = {"Falsy": Falsy, "LenZero": LenZero}
 POOL_ALL = dict(POOL)
+POOL_ALL["LocalShadow"] = LocalShadowCls  # (not in POOL: it replaces "Local" nodes after the fact, see gen_graph)
 POOL_ALL.update(FALSY_POOL)
 
 
@@ -319,6 +331,11 @@ def gen_graph(rng: random.Random, maxn: int = 6, falsy: bool = False, surrogate:
         nodes.append({"cls": cls, "args": args, "cause": None, "context": None, "suppress": None,
                       # state attached to the instance after construction (callback, lock): not part of args
                       "attr": rng.choice([None, None, None, None, "lock", "lambda", "plain"])})
+    # (a stream of its own: the choices above and below stay what they were for every seed)
+    rng_sh = random.Random(f"shadow-{n}-{[nd['cls'] for nd in nodes]}-{len(nodes[0]['args'])}")
+    for nd in nodes:
+        if nd["cls"] == "Local" and rng_sh.random() < 0.5:
+            nd["cls"] = "LocalShadow"
     r_ = rng.random()
     if n > 1 and r_ < 0.06:
         for nd_ in nodes:  # a chain of distinct but equal-valued errors (retries of one failing call)
@@ -504,6 +521,13 @@ def class_relation(orig: BaseException, loaded: Any, mode: str) -> Optional[str]
     if type(loaded) in cls.__mro__ and type(loaded) not in (Exception, BaseException, object):
         return None
     if names_class(loaded, cls):
+        lt = type(loaded)
+        if lt is not cls and lt.__module__ != "builtins" and importable(lt) and lt.__name__ == cls.__name__ \
+                and not importable(cls):
+            # an existing, importable class that merely has the same bare name as a class that cannot be imported
+            # (function-local, dynamic): an unrelated real class is not a stand-in for the error that was raised
+            return (f"error of the non-importable class {cls.__module__}.{cls.__qualname__} loaded as an instance of the unrelated "
+                    f"existing class {lt.__module__}.{lt.__qualname__}")
         return None
     return f"stand-in {type(loaded).__module__}.{type(loaded).__qualname__}({_safe(loaded)}) neither shares the name, nor is a base, nor names {cls.__qualname__}"
 
